@@ -208,7 +208,7 @@ def spec_views(case):
     strict_lines = set()
     for k, f, a, l, s in case["ev"]:
         if k == "line":
-            allowed.setdefault(a, {0}).add(l)
+            allowed.setdefault(a, set()).add(l)
             if s:
                 strict.append(["l", f, l])
                 strict_lines.add((f, l))
@@ -217,7 +217,7 @@ def spec_views(case):
             proj.append([kk, f])
             strict.append([kk, f])
             acts.append(a)
-            allowed.setdefault(a, {0})
+            allowed.setdefault(a, set())
     return {"proj": proj, "strict": strict, "acts": acts, "allowed": allowed, "strict_lines": strict_lines}
 
 
